@@ -223,6 +223,10 @@ def alternates(name, h, settings):
 
         v = R.BCRYPT.index(ch)
         alts.append(("dirty_padding", h[:i] + R.BCRYPT[v | 1] + h[i + 1 :], "repair"))
+        # ... and in the last DIGEST char (31 chars = 186 bits for 184: two unused bits)
+        v2 = R.BCRYPT.index(h[-1])
+        alts.append(("dirty_padding", h[:-1] + R.BCRYPT[v2 | 1], "repair"))
+        alts.append(("dirty_padding", h[:i] + R.BCRYPT[v | 2] + h[i + 1 : -1] + R.BCRYPT[v2 | 3], "repair"))
     return alts
 
 
@@ -258,6 +262,13 @@ def eval_alternate(case):
                 out.append((key + f"{label}:changed", f"{alt!r} re-rendered as {s!r}"))
             if label == "dirty_padding" and s != h:
                 out.append((key + f"{label}:repair", f"{alt!r} re-rendered as {s!r}, canonical is {h!r}"))
+            if label == "dirty_padding" and hasattr(H, "normhash"):
+                # the documented helper for exactly this normalisation, text and bytes
+                for form, a in (("str", alt), ("bytes", alt.encode("ascii"))):
+                    n = H.normhash(a)
+                    n = n.decode("ascii") if isinstance(n, bytes) else n
+                    if n != h:
+                        out.append((key + f"{label}:normhash:{form}", f"normhash({a!r}) = {n!r}, canonical is {h!r}"))
             for q in (p, "other"):
                 va, vs = H.verify(q, alt, **ctx), H.verify(q, s, **ctx)
                 if va != vs:
